@@ -740,6 +740,9 @@ impl Prop for C08 {
             "an Err from the compiler satisfies the statement; counted per message, and the run is inconclusive if fewer than 70% of well-formed cells compile".into(),
         ]
     }
+    fn miri_gen(&self) -> Option<&'static str> {
+        Some("with-instances")
+    }
     fn plan(&self, tier: Tier) -> Vec<GenSpec> {
         vec![
             GenSpec::random("plain", tier.pick(40_000, 400_000)),
